@@ -54,6 +54,14 @@ def startsOk (m : MStep) : Bool :=
 
 def startsCommitted (tr : List MStep) : Bool := tr.all startsOk
 
+/-- the member adopts the member id and generation of every successful join reply it processes
+    (so what it hands to its consumers is not stale) -/
+def joinAdoptedStep (m : MStep) : Bool :=
+  match m.ev with
+  | .joinDone (.ok mem g _ _) => m.obs == [.badOp] || (m.snap.member == mem && m.snap.gen == some g)
+  | _ => true
+def joinAdopted (tr : List MStep) : Bool := tr.all joinAdoptedStep
+
 /-- a join request is observed only when no consumer is running or draining -/
 def joinAfterDrainStep (m : MStep) : Bool := !m.obs.any isJoinOb || m.snap.cons.all (fun c => !isLive c)
 def joinAfterDrain (tr : List MStep) : Bool := tr.all joinAfterDrainStep
@@ -140,7 +148,7 @@ def afterStopOnlyLeave (tr : List MStep) : Bool := tr.all afterStopStep
 
 /-- every C16 check, by name -/
 def checks : List (String × (List MStep → Bool)) :=
-  [("fenced", fenced), ("startsCommitted", startsCommitted), ("joinAfterDrain", joinAfterDrain),
+  [("fenced", fenced), ("startsCommitted", startsCommitted), ("joinAdopted", joinAdopted), ("joinAfterDrain", joinAfterDrain),
    ("joinNoRunning", joinNoRunning), ("evictionStopsFirst", evictionStopsFirst), ("oneJoin", oneJoin),
    ("heartbeatOnlyStable", heartbeatOnlyStable), ("afterStopOnlyLeave", afterStopOnlyLeave)]
 
